@@ -499,8 +499,10 @@ def check_deferred_predicate(prog, run, rule_id):
                 for c in ast.walk(n.test):
                     if isinstance(c, ast.Call) and isinstance(c.func, (ast.Name, ast.Attribute)) and len(c.args) == 1:
                         name = ast.unparse(c.func)
-                        if name in ("isinstance", "len", "callable") or name.endswith("function") or name.endswith("callable"):
-                            continue
+                        if name in ("isinstance", "len", "callable", "bool") or name.endswith("function") or name.endswith("callable"):
+                            continue     # bool(x) is x; the calls inside x are visited on their own
+                        if isinstance(c.args[0], ast.Attribute) and isinstance(c.args[0].value, ast.Name) and c.args[0].value.id == "self":
+                            continue     # a test on the runtime's own configuration, not on a value
                         # a module-level alias of the same function is the same predicate
                         if isinstance(c.func, ast.Name):
                             rr = prog.resolve_name(mod, c.func.id)
